@@ -39,7 +39,7 @@ TwoIso == {"alpha_s", "isosteric_enthalpy"}
 \*   "alpha_s_reference_loading_basis"   : the reference look-ups name loading_basis='molar'
 \*   "isosteric_pressure_representation" : pressure_at(..., pressure_mode='absolute', pressure_unit='bar')
 \*   "whittaker_pressure_mode"           : convert_pressure(mode_to='absolute', unit_to='Pa')
-Repaired == {}
+Repaired == {"alpha_s_reference_loading_basis", "isosteric_pressure_representation", "whittaker_pressure_mode"}
 
 G0 == [pm |-> N, pu |-> N, lb |-> N, lu |-> N, mb |-> N, mu |-> N]
 Rel == <<"relative", N>>
